@@ -55,22 +55,29 @@ def gen_cp_case(rng: random.Random, tier: str) -> Dict[str, Any]:
     return case
 
 
+U = 1      # ticks per microsecond of the case being observed: every time / weight is recorded as an integer number of ticks
+
+
+def _tk(x: Any) -> int:
+    return hta.ival(float(x) * U)
+
+
 def frame_rows_cp(df, st) -> List[Dict[str, Any]]:
     cols = ["index", "ts", "dur", "pid", "tid", "stream", "correlation", "index_correlation", "name", "cat"]
     out = []
     for t in df[cols].itertuples(index=False):
-        out.append({"id": hta.ival(t[0]), "ts": hta.ival(t[1]), "dur": hta.ival(t[2]), "pid": hta.ival(t[3]), "tid": hta.ival(t[4]),
+        out.append({"id": hta.ival(t[0]), "ts": _tk(t[1]), "dur": _tk(t[2]), "pid": hta.ival(t[3]), "tid": hta.ival(t[4]),
                     "stream": hta.ival(t[5]), "corr": hta.ival(t[6]), "link": hta.ival(t[7]), "name": st[int(t[8])], "cat": st[int(t[9])]})
     return out
 
 
 def project_graph(cp) -> Dict[str, Any]:
-    nodes = [{"idx": int(n.idx), "ev": int(n.ev_idx), "ts": hta.ival(n.ts), "start": bool(n.is_start)} for n in cp.node_list]
+    nodes = [{"idx": int(n.idx), "ev": int(n.ev_idx), "ts": _tk(n.ts), "start": bool(n.is_start)} for n in cp.node_list]
     edges = []
     for u, v, data in cp.edges(data=True):
         e = data["object"]
         a = cp.edge_to_event_map.get((u, v), None)
-        edges.append({"u": int(u), "v": int(v), "w": hta.ival(e.weight), "gw": hta.ival(data["weight"]), "type": TYPES[e.type.value],
+        edges.append({"u": int(u), "v": int(v), "w": _tk(e.weight), "gw": _tk(data["weight"]), "type": TYPES[e.type.value],
                       "attr": -9 if a is None else int(a)})
     return {"nodes": nodes, "edges": edges}
 
@@ -104,10 +111,28 @@ def run_analysis(ta, case):
     return r, ann, inst
 
 
+def fractional_durations(rng: random.Random, case: Dict[str, Any], u: int = 4) -> None:
+    """Whole-microsecond start times, durations in 1/u microseconds (what a profile with integer ts and float dur looks like: the loader
+    rounds nothing in that case).  Only events without anything inside them are shortened, so nesting, stream order and causality stay."""
+    for rk in case["ranks"]:
+        evs = [e for e in rk["events"] if e.get("ph") == "X" and "dur" in e and e.get("cat") != "Trace"]
+        for e in evs:
+            if e["dur"] < 1 or rng.random() > 0.35 or e.get("cat") in ("user_annotation", "gpu_user_annotation", "cuda_sync") \
+                    or "Synchronize" in e["name"] or "EventQuery" in e["name"] or "StreamWaitEvent" in e["name"]:
+                continue        # a synchronising call must not return before the work it waits for
+            lo, hi = e["ts"], e["ts"] + e["dur"]
+            if any(o is not e and o["pid"] == e["pid"] and o["tid"] == e["tid"] and lo <= o["ts"] <= hi and lo <= o["ts"] + o["dur"] <= hi for o in evs):
+                continue        # something lies inside (or touches the end): leave it whole
+            e["dur"] = e["dur"] - rng.randrange(1, u) / u
+    case["u"] = u
+
+
 def observe_cp(case: Dict[str, Any], prop: str, whatif: bool = False, breakdown: bool = False) -> Dict[str, Any]:
     obs: Dict[str, Any] = {"prop": prop, "err": "", "success": False, "zero": bool(case["zero"]), "full": [], "rows": [], "nodes": [], "edges": [],
                            "p": {"path": [], "pedges": [], "pevents": []}, "rw": [], "bd": [], "summary": []}
     os.environ["CRITICAL_PATH_ADD_ZERO_WEIGHT_LAUNCH_EDGE"] = "1" if case["zero"] else "0"
+    global U
+    U = int(case.get("u", 1))
     with hta.CaseDir("cp") as d:
         ta = write_and_load(case, d, include_last=case["incl"])
         r, ann, inst = run_analysis(ta, case)
@@ -147,7 +172,7 @@ def observe_cp(case: Dict[str, Any], prop: str, whatif: bool = False, breakdown:
                 assert len(bd) == len(elist)
                 for e, t in zip(elist, bd[["event_idx", "duration", "type", "bound_by"]].itertuples(index=False)):
                     ev = t[0]
-                    obs["bd"].append({"u": int(e.begin), "v": int(e.end), "ev": -9 if ev != ev or ev is None else int(ev), "dur": hta.ival(t[1]),
+                    obs["bd"].append({"u": int(e.begin), "v": int(e.end), "ev": -9 if ev != ev or ev is None else int(ev), "dur": _tk(t[1]),
                                       "type": TYPES[str(t[2])], "bound": str(t[3])})
                     for x in obs["edges"]:
                         pass
@@ -166,7 +191,7 @@ def observe_cp(case: Dict[str, Any], prop: str, whatif: bool = False, breakdown:
                     for u, v in list(g.edges):
                         if rr.random() < 0.3:
                             w = g.edges[u, v]["weight"]
-                            g.edges[u, v]["weight"] = rr.choice([0, w * 2, w + 3, max(0, w - 1), w // 2])
+                            g.edges[u, v]["weight"] = rr.choice([0, w * 2, w + 3, max(0, w - 1), w // 2])      # all multiples of 1/U again
                     assigned = project_graph(g)["edges"]          # the weights the user assigned, read BEFORE recomputing
                     ok2 = g.critical_path()
                     rec["ok"] = bool(ok2)
@@ -188,7 +213,10 @@ class _CP(Prop):
     par = 16
 
     def gen_case(self, rng, k, tier):
-        return gen_cp_case(rng, tier)
+        case = gen_cp_case(rng, tier)
+        if k % 5 == 4 and all(r["ticks"] == 1 for r in case["ranks"]):
+            fractional_durations(rng, case)
+        return case
 
     def fingerprint(self, case, obs):
         import hashlib, json
